@@ -67,6 +67,17 @@ func genApiPlan(r *rand.Rand) *ApiPlan {
 	at := int64(0)
 	nsess := 0
 	n := 3 + r.IntN(8)
+	if r.IntN(4) == 0 {
+		// a request and the logout of its session at the same instant, late in the session's
+		// life (where a request also extends the session), then the cookie once more
+		at = int64(r.IntN(120)) * 1000
+		late := at + []int64{50*60000 + 1000, 55 * 60000, 59*60000 + 59000, 30 * 60000}[r.IntN(4)]
+		p.Ops = append(p.Ops, ApiOp{AtMs: at, Kind: "login", User: "admin", Pass: apiPassword},
+			ApiOp{AtMs: late, Kind: "race", Sess: 1, Route: apiAuthedRoutes[r.IntN(len(apiAuthedRoutes))]},
+			ApiOp{AtMs: late + int64(r.IntN(3))*60000, Kind: "use", Sess: 1, Route: apiAuthedRoutes[r.IntN(len(apiAuthedRoutes))]})
+		nsess = 1
+		at = late + 3*60000
+	}
 	for i := 0; i < n; i++ {
 		at += apiOffsets[r.IntN(len(apiOffsets))] / int64(1+r.IntN(2))
 		op := ApiOp{AtMs: at}
@@ -286,6 +297,7 @@ func runApiPlan(t *testing.T, planAny any, ctl Ctl) *Result {
 			}
 			return -1
 		}
+		raceN := 0
 		s.Spawn("actor:api", func() {
 			for _, op := range p.Ops {
 				s.WaitUntil("harness:api-at", start.Add(time.Duration(op.AtMs)*time.Millisecond))
@@ -407,6 +419,30 @@ func runApiPlan(t *testing.T, planAny any, ctl Ctl) *Result {
 								res.violate("C20.a", "refused-request-had-effect", "%s was refused (401) but changed state [%s]", route, h)
 							}
 						}
+					}
+				case "race":
+					cookie, rs := cookieOf(ApiOp{Sess: op.Sess})
+					if rs == nil || liveness(rs, now) != 1 {
+						continue
+					}
+					hist = append(hist, fmt.Sprintf("+%v %s and POST /api/auth/logout at once, cookie=session#%d", rel, op.Route, op.Sess))
+					method, path, _ := strings.Cut(op.Route, " ")
+					raceN++
+					ta, tb := fmt.Sprintf("actor:race-use-%d", raceN), fmt.Sprintf("actor:race-logout-%d", raceN)
+					var outCode int
+					s.Spawn(ta, func() { call(method, path, cookie, "", "", "") })
+					s.Spawn(tb, func() { outCode = call("POST", "/api/auth/logout", cookie, "", "", "").Code })
+					for !(s.TaskDone(ta) && s.TaskDone(tb)) {
+						s.WaitUntil("harness:api-race", time.Now().Add(time.Millisecond))
+					}
+					res.Probes["use_concurrent_with_logout"]++
+					if outCode >= 300 {
+						res.violate("C20.a", "logout-of-live-session-refused", "POST /api/auth/logout with the cookie of a live session answered %d while another request used the session [%s]", outCode, strings.Join(hist, "; "))
+					}
+					rs.dead = true
+					// the logout has been answered: the session is dead, whatever the other request did
+					if rec := call("GET", "/api/auth/me", cookie, "", "", ""); rec.Code != 401 {
+						res.violate("C20.b", "logged-out-session-accepted (revived by a concurrent request)", "GET /api/auth/me answered %d with the cookie of a session whose logout had been answered [%s]", rec.Code, strings.Join(hist, "; "))
 					}
 				case "sweep":
 					cookie, rs := cookieOf(op)
